@@ -41,7 +41,7 @@ DefaultLiteral(s, o, pre) ==          \* pre: the pre-parse atoms of the field
   ELSE IF FlagLike(od) THEN E
   ELSE CASE od.kind \in {"slice", "sliceptr"} -> IF pre = <<>> THEN E ELSE <<LBRACK>> \o CommaJoin([i \in 1..Len(pre) |-> RenderAtom(od, pre[i])]) \o <<RBRACK>>
          [] od.kind = "map" -> IF pre = <<>> THEN E
-                               ELSE LET ps == IF Defect("HelpMapOrder") THEN pre ELSE SortPairs(pre) IN
+                               ELSE LET ps == IF Defect("HelpMapOrder") THEN pre ELSE RenderedPairs(od, pre) IN
                                     <<123>> \o CommaJoin([i \in 1..Len(ps) |-> ps[i][1] \o <<COLON>> \o RenderAtom(od, ps[i][2])]) \o <<125>>
          [] od.kind = "ptr" -> IF pre = <<>> THEN E ELSE RenderAtom(od, pre[1])
          [] od.kind \in {"func0", "func1"} -> E         \* a callback field that is set renders as the empty text
